@@ -49,9 +49,9 @@ theorem emit_ok {s s' : Schema} {c : Catalog} {d : DDL} {ops : List Op} (w : WF 
   | setRequired i b => exact step_setRequired w he i b hem
   | setExpr i b => exact step_setExpr w he i b hsafe hem
   | resetExpr i => exact step_resetExpr w he i hsafe hem
-  | addLProp i lp => exact step_addLProp w he i lp hem
+  | addLProp i lp => exact step_addLProp w he i lp hsafe hem
   | dropLProp i lp => exact step_dropLProp w he i lp hem
-  | renameLProp i lp name => exact step_renameLProp w he i lp name hem
+  | renameLProp i lp name => exact step_renameLProp w he i lp name hsafe hem
   | setLPropComputed i lp b => exact step_setLPropComputed w he i lp b hem
 
 theorem stepDDL_ok_iff {st st' : State} {d : DDL} :
@@ -98,8 +98,9 @@ theorem stepDDL_no_backend {st : State} {d : DDL} (hinv : Inv st) (hsafe : safeS
     simp [hex']
 
 theorem inv_init : Inv {} := by
-  refine ⟨⟨?_, ?_, ?_, ?_⟩, ?_⟩
+  refine ⟨⟨?_, ?_, ?_, ?_, ?_⟩, ?_⟩
   · simp [Schema.ptrIds]
+  · intro p hp; cases hp
   · intro p hp; cases hp
   · intro p hp; cases hp
   · intro p hp; cases hp
